@@ -138,6 +138,10 @@ pub struct WorldCfg {
     pub if_balance: U,
     pub roles: Roles,
     pub start_time: u64,
+    /// deploy unrelated contracts between the first and the second vAMM so that the second vAMM's address is the first
+    /// one's followed by one more character (the host numbers contracts: contract5 ... contract50)
+    #[serde(default)]
+    pub prefix_vamms: bool,
 }
 
 impl WorldCfg {
